@@ -41,7 +41,7 @@ def gen_glitch(r, tier):
         c = streams.gen_world_case(r, n_events=30, faults=False, malformed=False, kind=r.pick(["hwmon", "hwmon", "file"]))
         out = []
         for op in c:
-            if op.startswith(("w.cycle", "w.setpwm", "w.restore")) and r.chance(0.3):
+            if op.startswith(("w.cycle", "w.setpwm", "w.restore", "w.poll")) and r.chance(0.3):
                 out.append(f"w.dev glitch={r.pick([1, 2, 2, 3, 4, 5])}")
             out.append(op)
         ops += out + ["w.dev glitch=0", "w.restore"]
